@@ -34,6 +34,8 @@ def make_namespace(nsd):
         ns.add_taxon(Taxon(label=l))
     for l in nsd.get("removed", ()):
         ns.remove_taxon(ns.get_taxon(label=l))
+    for l in nsd.get("added", ()):
+        ns.add_taxon(Taxon(label=l))      # accessioned AFTER the removals: gets a new bit, never one in use
     order = nsd.get("order", "asis")
     if order == "rev":
         ns.reverse()
@@ -46,7 +48,7 @@ def make_namespace(nsd):
 
 def ns_labels(nsd):
     rem = set(nsd.get("removed", ()))
-    return [l for l in LABELS[: nsd["total"]] if l not in rem]
+    return [l for l in LABELS[: nsd["total"]] if l not in rem] + list(nsd.get("added", ()))
 
 
 def build(spec, ns=None):
@@ -180,6 +182,9 @@ def namespace_variants(n, full=True):
     out.append(({"total": n + 2, "removed": ["A", mid], "order": "rev"}, use))            # two removed
     use2 = [l for l in LABELS[:n + 2] if l != mid][:n]
     out.append(({"total": n + 2, "removed": [mid], "order": "asis"}, use2))               # hole in the middle, one spare at the top
+    late = LABELS[n + 1]
+    use3 = [l for l in LABELS[1:n + 1] if l != mid] + [late]
+    out.append(({"total": n + 1, "removed": [mid], "added": [late], "order": "asis"}, use3[-n:]))   # a taxon added after a removal
     return out
 
 
